@@ -86,7 +86,7 @@ def run(tier):
         kf = rng.choice(["be4", "empty0", "ascii", "nonutf8", "marker"])
         vf = rng.choice(concrete.VALUE_FAMILIES)
         progs = random_programs(rng, nrand, rng.choice([200, 800]) if nkeys < 1000 else 1500, nkeys, big_vals)
-        batches.append(("rand-%s-%s-%d" % (kf, vf, nkeys), concrete.key_family(kf, nkeys, rng), concrete.value_family(vf, big_vals, rng), progs,
+        batches.append(("rand%d-%s-%s-%d" % (i, kf, vf, nkeys), concrete.key_family(kf, nkeys, rng), concrete.value_family(vf, big_vals, rng), progs,
                         rng.choice([16, 4096, 1 << 20])))
 
     total_cases = 0
